@@ -12,14 +12,14 @@ Local Open Scope Z_scope.
    resolved is wiped; every other AVS, every row of an unregistered AVS and the key set are untouched.  It holds of the model
    of the hook for EVERY ledger, price table, AVS registry and stored state. *)
 Theorem C05_epoch_end_meets_statement : forall e s c,
-  nodupb Z.eqb (map v_id (e_avss e)) = true -> env_nonneg e = true -> alias_free e s = true ->
+  nodupb Z.eqb (map v_id (e_avss e)) = true -> env_nonneg e = true -> empty_pools_sane e = true -> alias_free e s = true ->
   step_ok e [c] s (epoch_end e s c) = true.
 Proof. exact epoch_end_meets_statement. Qed.
 Print Assumptions C05_epoch_end_meets_statement.
 
 (* the same for a block in which several epoch identifiers end at once (real BeginBlocker) *)
 Theorem C05_block_meets_statement : forall e s calls,
-  nodupb Z.eqb (map v_id (e_avss e)) = true -> env_nonneg e = true -> alias_free e s = true ->
+  nodupb Z.eqb (map v_id (e_avss e)) = true -> env_nonneg e = true -> empty_pools_sane e = true -> alias_free e s = true ->
   step_ok e calls s (step e s calls) = true.
 Proof. exact step_meets_statement. Qed.
 Print Assumptions C05_block_meets_statement.
@@ -157,6 +157,15 @@ Example C05_witness_empty_asset_list :
   step_ok e [(1, 2)] ex_st (epoch_end e ex_st (1, 2)) = true /\
   step_ok e [(1, 2)] ex_st ex_st = false /\
   step_ok e [(1, 2)] ex_st (mkSt (filter (fun r => negb (r_avs r =? 2)) (s_rows ex_st)) (del_val (s_avsval ex_st) 2)) = false.
+Proof. vm_compute. repeat split; reflexivity. Qed.
+
+(* an emptied pool whose operator share was not reset (total 0, total share 0, operator share 5): the code's calculation fails
+   and keeps the stale rows, but the statement does not excuse it — the pool is worth 0 — so the stale result is a violation *)
+Example C05_leftover_operator_share_is_no_excuse :
+  let e := mkEnv [mkPool 0 0 0 0 (5 * P)] (e_assets ex_env) [mkAvs 1 1 1 0 [0] true []] in
+  let s := mkSt [mkRow 1 0 (9 * P) (9 * P) (9 * P)] [(1, 9 * P)] in
+  empty_pools_sane e = false /\ epoch_end e s (1, 2) = s /\ step_ok e [(1, 2)] s (epoch_end e s (1, 2)) = false /\
+  step_ok e [(1, 2)] s (mkSt [mkRow 1 0 0 0 0] [(1, 0)]) = true.
 Proof. vm_compute. repeat split; reflexivity. Qed.
 
 Example C05_witness_hour : s_rows (epoch_end ex_env ex_st (2, 5)) =
